@@ -64,7 +64,7 @@ theorem exMsg_wt : wt exEnv (.ref 1) exMsg := by
   simp only [wtMsg, exEnv, List.find?]
   refine ⟨by decide, by decide, ⟨_, rfl, exInner_wt⟩, by decide, by decide, ⟨_, rfl, ?_⟩, by decide, by decide,
     ⟨_, rfl, ?_⟩, by decide, by decide, ⟨_, rfl, ?_⟩, by decide, by decide, ⟨_, rfl, ?_⟩, trivial⟩
-  · simp [wt, wtList]
+  · simp [wt, wtList, Progress, loopSlack]
   · exact ⟨.str, .bool, rfl, rfl, by decide, by simp [wtKVs, wt], by simp [keysDistinct, keyEq]⟩
   · simp [wt]
   · simp only [wt]; exact ⟨by decide, Or.inr (Or.inr (Or.inr (Or.inr ⟨trivial, trivial, by decide⟩)))⟩
@@ -77,7 +77,7 @@ theorem exVal_wt : wt exEnv (.ref 3) exVal := by
   · refine ⟨1, _, rfl, rfl, ?_, by decide⟩
     simp only [wtMsg, exEnv, List.find?]
     refine ⟨by decide, by decide, ⟨_, rfl, ?_⟩, trivial⟩
-    simp [wt, wtList]
+    simp [wt, wtList, Progress, loopSlack]
   · simp [wt]
 
 end Bebop
